@@ -737,6 +737,14 @@ def process_rows(row, row_sx, row_ex, no_go, row_space, r_a, rotate, intersectio
                 inters[i + 1][1] += d * sin(rotate)
                 inters[i][0] -= d * cos(rotate)
                 inters[i][1] -= d * sin(rotate)
+                # a no-go zone next to the boundary must not push the widened gap past the ends of the row
+                row_dx, row_dy = row_ex[0] - row_sx[0], row_ex[1] - row_sx[1]
+                for p in (inters[i], inters[i + 1]):
+                    t = ((p[0] - row_sx[0]) * row_dx + (p[1] - row_sx[1]) * row_dy) / (row_dx * row_dx + row_dy * row_dy)
+                    if t > 1.0:
+                        p[0], p[1] = row_ex[0], row_ex[1]
+                    elif t < 0.0:
+                        p[0], p[1] = row_sx[0], row_sx[1]
     if num_col < 1:
         ins = False
         for shape in no_go:
